@@ -322,9 +322,10 @@ def GState.drain (g : GState) : List (Msg × Nat) × GState := (g.queue, { g wit
   `drain_outbound`, then sends a targeted message to `peer_map.get(target)` (silently nothing
   when the id is not in the map) and a broadcast message to every configured peer. -/
 
-/-- the arithmetic of the loops' address map in the current tree: `if i >= replica_id { i + 2 }
-    else { i + 1 }` — the off-by-one that fix faccb9f removed from `from_config` only -/
-def loopArith : PeerIdArith := .pinned
+/-- the arithmetic of the loops' address map in the current tree: `ReplicationConfig::peer_replica_id`,
+    the one function `from_config` uses too (fix 9dce37c; before it the loops kept the off-by-one
+    `if i >= replica_id { i + 2 } else { i + 1 }` that fix faccb9f had removed from `from_config` only) -/
+def loopArith : PeerIdArith := .fixed
 
 /-- what `tokio::time::interval(config.gossip_interval())` does at the start of a loop for a
     configured `gossip_interval_ms` (a plain `u64`): a zero period panics ("`period` must be
@@ -339,8 +340,8 @@ def loopStart (clamped : Bool) (intervalMs : Nat) : LoopStart :=
   if clamped then .ticksEvery (max intervalMs 1)
   else if intervalMs = 0 then .panicZeroPeriod else .ticksEvery intervalMs
 
-/-- the current tree: `gossip_interval()` is `Duration::from_millis(gossip_interval_ms)` as it is -/
-def currentIntervalClamped : Bool := false
+/-- the current tree: `gossip_interval()` is `Duration::from_millis(gossip_interval_ms.max(1))` (fix 0da3af9) -/
+def currentIntervalClamped : Bool := true
 
 /-- to which peer INDEX (position in `config.peers`) each drained message is written -/
 def dispatch (peerMap : NMap Nat) (npeers : Nat) (msgs : List (Msg × Nat)) : List (Nat × Msg × Nat) :=
